@@ -293,6 +293,9 @@ def check_C08(chk):
 def check_C02(chk):
     exe = build_driver(chk.wd, 'prod')
     anchor_oracle(chk, ['TinyJAMBU-128', 'TinyJAMBU-192', 'TinyJAMBU-256'], 0 if chk.thorough else 64)
+    # mode level: the AEAD mode as a machine over permutation calls (MC_Mode refinement + every logged call of the real code)
+    import fam_mode
+    fam_mode.mode_stage(chk, 'aead')
     shapes = tlc_plan(chk.wd, 'Plan_Cipher', dict(FAMILY='roundtrip', TIER=chk.tier))
     shapes.sort(key=lambda s: json.dumps(s, sort_keys=True))
     r = Rng(chk.seed ^ 0xC02)
@@ -647,6 +650,9 @@ def check_C09(chk):
     exe = build_driver(chk.wd, 'prod')
     chk.cov['builds'].append('prod')
     anchor_oracle(chk, ['TinyJAMBU-128-SIV', 'TinyJAMBU-192-SIV', 'TinyJAMBU-256-SIV'], 0 if chk.thorough else 48)
+    # mode level: the two passes of SIV as a machine over permutation calls
+    import fam_mode
+    fam_mode.mode_stage(chk, 'siv')
     fams = tlc_plan(chk.wd, 'Plan_Cipher', dict(FAMILY='sivfam', TIER=chk.tier))
     fams.sort(key=lambda s: json.dumps(s, sort_keys=True))
     chk.cov['plan_shapes'] = len(fams)
